@@ -1,7 +1,9 @@
 (** C10: the statements of coq/Props/C10.v, proved here (Props only contains [exact]). *)
 From Coq Require Import List ZArith Bool.
-From V Require Import Gen.Params Wire.Varint PktProt.PktNum PktProt.PktNumProofs PktProt.Protect PktProt.ProtectProofs
-     UPacker.Model UPacker.ProofsSize UPacker.ProofsFlight UPacker.ProofsDecrypt.
+From V Require Import Gen.Params Lib.Hex Wire.Varint Wire.Headers Wire.HeadersProofs
+     PktProt.PktNum PktProt.PktNumProofs PktProt.Protect PktProt.ProtectProofs PktProt.ProtectExamples
+     UFrames.Model UFrames.Proofs UFrames.ProofsLength
+     UPacker.Model UPacker.ProofsSize UPacker.ProofsFlight UPacker.ProofsDecrypt UPacker.ProofsRandom UPacker.ProofsWire.
 Import ListNotations.
 Open Scope Z_scope.
 
@@ -78,6 +80,19 @@ Proof.
   - exact (resolveToken_none ctl prefix tail conf).
 Qed.
 
+Lemma t_C10_token_prefix_oracle : forall ctl prefix tail conf,
+  Z.max ctl (Z.of_nat (length prefix)) > 0 ->
+  resolveToken None ctl prefix tail conf
+  = Some (prefix ++ firstn (Z.to_nat (Z.max ctl (Z.of_nat (length prefix))) - length prefix) tail).
+Proof. exact resolveToken_is_prefix_oracle. Qed.
+
+Lemma t_C10_token_fresh_iff : forall ctl prefix tail1 tail2 conf1 conf2,
+  Z.max ctl (Z.of_nat (length prefix)) > 0 ->
+  let k := (Z.to_nat (Z.max ctl (Z.of_nat (length prefix))) - length prefix)%nat in
+  (resolveToken None ctl prefix tail1 conf1 = resolveToken None ctl prefix tail2 conf2
+   <-> firstn k tail1 = firstn k tail2).
+Proof. exact token_fresh_iff. Qed.
+
 Lemma t_C10_cid_lengths : forall specScid specDcid drawn,
   dialScidLen specScid = specScid /\ (specDcid > 0 -> dialDcidLen specDcid drawn = specDcid) /\
   (specDcid <= 0 -> dialDcidLen specDcid drawn = drawn).
@@ -112,6 +127,37 @@ Lemma t_C10_random_reserve_sufficient : forall len minpad maxping maxcrypto off 
   0 <= pings <= maxping ->
   pings + framesLen fs <= len - minpad.
 Proof. exact reserve_sufficient. Qed.
+
+Lemma t_C10_random_payload_exact : forall p data base bs us ws bs' us',
+  rf_wf p -> 0 <= base -> 0 < rfLen p -> 1 <= minPad p -> base + rfLen p <= maxVarInt8 ->
+  0 < zlen data <= maxCryptoData (rfTuple p) base ->
+  build_internal p data base bs us = Ok (ws, bs', us') ->
+  zlen (encode ws) = rfLen p /\ minPad p <= wpadbytes ws.
+Proof. exact random_payload_exact. Qed.
+
+Lemma t_C10_random_datagram_exact : forall p data base bs us ws bs' us' cl s hdr pnLen udpMin,
+  rf_wf p -> 0 <= base -> 0 < rfLen p -> 1 <= minPad p -> base + rfLen p <= maxVarInt8 ->
+  0 < zlen data <= maxCryptoData (rfTuple p) base ->
+  build_internal p data base bs us = Ok (ws, bs', us') ->
+  (hdr + rfLen p + 16 <= 1452 ->
+   appendInitial (cl, 0) hdr pnLen (zlen (encode ws)) udpMin
+   = AppOk (pnLen + rfLen p + 16) (hdr + rfLen p + 16)
+           (Z.max (hdr + rfLen p + 16) (Z.min (if udpMin =? 0 then 1200 else udpMin) 1452)) false) /\
+  (0 < s -> hdr + rfLen p + 16 <= s -> s <= 1452 ->
+   appendInitial (cl, s) hdr pnLen (zlen (encode ws)) udpMin = AppOk (pnLen + (s - hdr - 16) + 16) s s false).
+Proof.
+  intros p data base bs us ws bs' us' cl s hdr pnLen udpMin H1 H2 H3 H4 H5 H6 H7.
+  destruct (random_payload_exact p data base bs us ws bs' us' H1 H2 H3 H4 H5 H6 H7) as [E _]. rewrite E.
+  split; [apply append_udp_min|apply append_exact_fits].
+Qed.
+
+Lemma t_C10_random_payload_nonvacuous :
+  rf_wf ex_p /\ maxCryptoData (rfTuple ex_p) 0 = 1145 /\
+  match build_internal ex_p (repeat 7 1145%nat) 0 ex_bs ex_us with
+  | Ok (ws, _, _) => zlen (encode ws) = 1215 /\ wpadbytes ws = 23
+  | _ => False
+  end.
+Proof. exact random_payload_example. Qed.
 
 Lemma t_C10_random_reserve_regression :
   maxCryptoData (1215, 2, 3, 13) 0 = 1145 /\
@@ -178,6 +224,13 @@ Lemma t_C10_le_max_packet_size : forall plan hdr pnLen plen udpMin maxSize lf pl
   dl <= maxSize.
 Proof. exact append_le_max. Qed.
 
+Lemma t_C10_udp_min_excess : forall cl hdr pnLen plen udpMin maxSize,
+  hdr + plen + 16 <= 1452 -> hdr + plen + 16 <= maxSize ->
+  let mn := Z.min (if udpMin =? 0 then 1200 else udpMin) 1452 in
+  exists dl, appendInitial (cl, 0) hdr pnLen plen udpMin = AppOk (pnLen + plen + 16) (hdr + plen + 16) dl false /\
+             (maxSize < dl <-> maxSize < mn) /\ (maxSize < dl -> dl = mn).
+Proof. exact udp_min_excess. Qed.
+
 Lemma t_C10_le_max_packet_size_refuted :
   (exists lf, appendInitial (0, 0) 22 1 516 1357 = AppOk lf 554 1357 false) /\
   flight (wcfg BEx [] 1 [] 0) 1241 [1300] = [DG 1 1 19 [(0, 1241)] 1317 1335 1335 1 false].
@@ -216,6 +269,58 @@ Lemma t_C10_decryptable :
       = UOk (long_first 0 (Z.to_nat pnLen)) pn pnLen 0 payload /\
       lf = pnLen + Z.of_nat (length payload) + 16.
 Proof. exact flight_decryptable. Qed.
+
+Lemma t_C10_header_bytes : forall ver dcid scid token lf pn pnLen,
+  (ver = H_Version1 \/ ver = H_Version2) -> zlen dcid <= 20 -> zlen scid <= 20 -> 0 <= lf <= 16383 ->
+  1 <= pnLen <= 4 -> zlen token <= maxVarInt8 ->
+  initialHeaderBytes ver dcid scid token lf pn pnLen
+  = (0, (192 + 16 * type_code ver H_PacketTypeInitial + (pnLen - 1))
+        :: (be 4 ver ++ [zlen dcid] ++ dcid ++ [zlen scid] ++ scid ++ vappend (zlen token) ++ token ++ vappend_len lf 2)
+        ++ pn_bytes (Z.to_nat pnLen) pn) /\
+  zlen (snd (initialHeaderBytes ver dcid scid token lf pn pnLen))
+  = 1 + 4 + 1 + zlen dcid + 1 + zlen scid + pnLen + 2 + (vlen (zlen token) + zlen token).
+Proof.
+  intros ver dcid scid token lf pn pnLen Hv Hd Hs Hl Hp Ht.
+  pose proof (Build_wf_initial ver dcid scid token lf pnLen Hv Hd Hs Hl Hp Ht) as W.
+  split; [exact (initial_header_bytes ver dcid scid token lf pn pnLen W)|exact (initial_header_length ver dcid scid token lf pn pnLen W)].
+Qed.
+
+Lemma t_C10_server_reads_back :
+  forall (aead_seal : Z -> Z -> list Z -> list Z -> list Z)
+         (aead_open : Z -> Z -> list Z -> list Z -> option (list Z))
+         (hp_mask : list Z -> list Z),
+    (forall pn kp ad p, aead_open pn kp ad (aead_seal pn kp ad p) = Some p) ->
+    (forall pn kp ad p, length (aead_seal pn kp ad p) = (length p + 16)%nat) ->
+    forall c helloLen plens k pn pnLen h fs lf pk dl ix rp ver (dcid scid token payload : list Z) largest,
+      nth_error (flight c helloLen plens) k = Some (DG pn pnLen h fs lf pk dl ix rp) ->
+      (ver = H_Version1 \/ ver = H_Version2) ->
+      zlen dcid = c_dcid c -> zlen scid = c_scid c -> zlen token = c_tokLen c ->
+      zlen dcid <= 20 -> zlen scid <= 20 ->
+      1 <= pnLen <= 4 -> pn < 2 ^ 62 -> 0 <= c_ipn c < 2 ^ 64 ->
+      zlen payload = pk - h - 16 -> payload <> [] -> 4 <= pnLen + zlen payload ->
+      (largest = pn - 1 \/ (largest = -1 /\ pn <= 2 ^ (pnLen * 8) / 2)) ->
+      let hb := initialHeaderBytes ver dcid scid token lf pn pnLen in
+      let pkt := protect aead_seal hp_mask true (snd hb) payload pn 0 (Z.to_nat pnLen) in
+      fst hb = 0 /\ zlen (snd hb) = h /\
+      exists hd, parse_header pkt = Some (hd, 0) /\
+        hType hd = H_PacketTypeInitial /\ hVersion hd = ver /\ hDst hd = dcid /\ hSrc hd = scid /\
+        hToken hd = token /\ hLength hd = lf /\ hParsedLen hd = h - pnLen /\
+        zlen pkt = hParsedLen hd + hLength hd /\
+        unprotect aead_open hp_mask true (Z.to_nat (hParsedLen hd)) largest pkt
+        = UOk (192 + 16 * type_code ver H_PacketTypeInitial + (pnLen - 1)) pn pnLen 0 payload.
+Proof. exact flight_server_reads_back. Qed.
+
+Lemma t_C10_server_reads_back_nonvacuous :
+  (forall pn kp ad p, toy_open pn kp ad (toy_seal pn kp ad p) = Some p) /\
+  (forall pn kp ad p, length (toy_seal pn kp ad p) = (length p + 16)%nat) /\
+  nth_error (flight (wcfg BPass [] 1 [(999, 1200); (0, 1250)] 0) 1700 []) 0 = Some (DG 1 1 19 [(0, 999)] 1182 1200 1200 1 false) /\
+  zlen (repeat 7 8) = 8 /\ zlen (repeat 1 1165) = 1200 - 19 - 16 /\ repeat 1 1165 <> [] /\ 4 <= 1 + zlen (repeat 1 1165) /\
+  1 <= 2 ^ (1 * 8) / 2.
+Proof.
+  split; [exact toy_open_seal|]. split; [exact toy_seal_length|].
+  split; [rewrite plan_index_regression; reflexivity|].
+  repeat split; try (vm_compute; congruence); discriminate.
+Qed.
 
 Lemma t_C10_first_pn_decodable_iff : forall len pn,
   valid_len len -> 0 <= pn < 2 ^ 62 ->
